@@ -284,7 +284,7 @@ Theorem wstep_core_sim w sw o : RW w sw ->
   out' = out /\ RW w' sw'.
 Proof.
   intros HRW. pose proof HRW as [HR HI Hhs Hhl Hst Hok Henv Hhsok Hhlok].
-  destruct o as [cs|cs|n| |n|built cs|cs|h|hs|h| | |h|h| |h| |so| | ]; cbn [wstep_core sstep_core].
+  destruct o as [cs|cs|n| |n|built cs|cs|h|hs|h| | |h|h| |h| |so| |lsid lh lv|lsid ll|lsid lh|prog|qso| ]; cbn [wstep_core sstep_core].
   - (* OCreate *)
     pose proof (create_sim false w sw HRW) as X. destruct (w_create false w) as [w1 e]. cbn [choices_of map hd_choice].
     destruct (s_create false sw (fst e)) as [sw1 e']. destruct X as [-> [H [Hk _]]]. split; [reflexivity|].
@@ -381,6 +381,15 @@ Proof.
     split; [reflexivity|]. apply RW_env_update. assumption.
   - (* ODropWorld *)
     cbn [choices_of]. split; [reflexivity|]. rewrite Henv. apply RW_env_update. assumption.
+  - rewrite Hhs. destruct (hget (s_hs sw) lh); cbn [choices_of]; auto.
+  - rewrite Hhs. destruct (hget_all (s_hs sw) (map fst ll)); cbn [choices_of]; auto.
+  - rewrite Hhs. destruct (hget (s_hs sw) lh); cbn [choices_of]; auto.
+  - cbn [choices_of]. auto.
+  - (* OQuiet *)
+    rewrite Henv, Hhs. unfold env_sop_quiet.
+    rewrite (env_sop_cong (s_env sw) (a_view (w_alloc w)) (l_view (s_life sw)) (s_hs sw) qso)
+      by (intros k e Hk; apply view_agree; eauto).
+    cbn [choices_of]. split; [reflexivity|]. apply RW_env_update. assumption.
   - cbn [choices_of]. auto.
 Qed.
 
